@@ -347,6 +347,7 @@ class Core:
                             body = self.speclib.instance(names[c.decl().name()], c).arg(1)
                         finally:
                             self.speclib._ghost = None
+                        body = _simplify_known(body, g)
                         if not any(body.eq(o) for o in out):
                             out.append(body)
                             nxt.append(body)
@@ -423,6 +424,30 @@ def _conjuncts(f, depth=0):
         yield from _conjuncts(f.arg(0), depth + 1)
     else:
         yield f
+
+
+def _simplify_known(body, g):
+    """replace recogniser atoms whose subject's constructor is known by true/false, then simplify
+    (collapses the class-dispatching if-chains of spec functions)"""
+    subs = []
+    stack, seen = [body], set()
+    while stack:
+        x = stack.pop()
+        if x.get_id() in seen:
+            continue
+        seen.add(x.get_id())
+        if z3.is_quantifier(x):
+            continue
+        if z3.is_app(x):
+            if x.decl().kind() == z3.Z3_OP_DT_IS:
+                k = g.get(("is", x.arg(0).get_id()))
+                if k is not None:
+                    subs.append((x, z3.BoolVal(x.decl().params()[0].name() == k)))
+                    continue
+            stack.extend(x.children())
+    if not subs:
+        return body
+    return z3.simplify(z3.substitute(body, *subs))
 
 
 def _note_recognisers(c, ghost, depth=0):
